@@ -374,7 +374,33 @@ def replay_inputs(b, ob, vin, log):
     if rc in (98, 99) or 'AddressSanitizer' in err or 'runtime error' in err:
         return True, 'real code: sanitizer report: ' + (re.findall(r'(ERROR: AddressSanitizer[^\n]*|[^\n]*runtime error[^\n]*)', err) or [''])[0][:300]
     if rc < 0 and rc != -9: return True, 'real code: crashed with signal %d' % -rc
-    return False, 'rc=%d out=%s' % (rc, out[-200:].replace('\n', ' | '))
+    first = 'rc=%d out=%s' % (rc, out[-200:].replace('\n', ' | '))
+    if not b.unit.cuts:
+        # second attempt under MemorySanitizer: a counterexample that depends on an uninitialised read does not show under ASan
+        try:
+            ok, detail = replay_msan(b, ob, vf)
+            if ok: return True, detail
+        except Exception as e:
+            first += ' (msan replay failed: %s)' % str(e)[-200:]
+    return False, first
+
+def replay_msan(b, ob, vf):
+    tag = re.sub(r'[^A-Za-z0-9_]', '_', ob.name)
+    u = b.unit; ms = ['-fsanitize=memory', '-fno-omit-frame-pointer', '-g', '-O1']
+    flags = [f for f in CLANG_FLAGS if f not in ('-Xclang', '-disable-llvm-passes', '-O1')]
+    ro = os.path.join(b.dir, tag + '.msan.real.o'); ho = os.path.join(b.dir, tag + '.msan.h.o'); rt = os.path.join(b.dir, tag + '.msan.rt.o'); ex = os.path.join(b.dir, tag + '.msan.exe')
+    for cmd in (['clang++-14'] + flags + ms + ['-D' + d for d in u.defs] + ['-c', os.path.join(ROOT, u.src), '-o', ro],
+                ['clang-14', '-w', '-DREPLAY', '-DVERIF_ENTRY=' + ob.entry, '-I', b.dir, '-I', ENG, '-I', os.path.join(ROOT, 'harness')] + ms + ['-D' + d for d in ob.defs] + ['-c', os.path.join(ROOT, ob.harness), '-o', ho],
+                ['clang-14', '-w', '-DVERIF_ENTRY=' + ob.entry] + ms + ['-c', os.path.join(ENG, 'vrt_native.c'), '-o', rt],
+                ['clang++-14'] + ms + [ho, ro, rt, '-o', ex, '-lm']):
+        r = sh(cmd)
+        if r.returncode != 0: raise RuntimeError(r.stdout[-400:])
+    env = dict(os.environ); env['VIN_FILE'] = vf; env['MSAN_OPTIONS'] = 'exitcode=97'
+    r = subprocess.run([ex], stdout=subprocess.PIPE, stderr=subprocess.PIPE, text=True, env=env, timeout=30, errors='replace')
+    if r.returncode == 97 or 'MemorySanitizer' in r.stderr:
+        return True, 'real code under MemorySanitizer: ' + (re.findall(r'(WARNING: MemorySanitizer[^\n]*)', r.stderr) or [''])[0] + ' ' + ' '.join(re.findall(r'#\d+ \S+ in ([^\n]*)', r.stderr)[:2])[:300]
+    if r.returncode == 1 and 'ASSERT-FAILED' in r.stdout: return True, 'real code (msan build): ' + [l for l in r.stdout.split('\n') if 'ASSERT-FAILED' in l][0]
+    return False, 'msan rc=%d' % r.returncode
 
 def validate_translation(b, ob, log, seed, n):
     """native differential run of the harness: generated C vs real code, n pseudo-random input streams"""
